@@ -114,7 +114,8 @@ func RunHistory(t *testing.T, seed int64, gen *Gen, fixed []Op, nops int, drain 
 // is charged to (the properties whose theorems unfold the model function of that operation).
 func chargedProps(opKind, mismatchKind string) []string {
 	if mismatchKind == "wakes" {
-		return []string{"C10", "C09"}
+		// who is woken is part of every operation's modelled effect; C10 and C09 rest on it directly
+		return append([]string{"C10", "C09"}, chargedProps(opKind, "")...)
 	}
 	// a property is charged with every operation its theorems quantify over
 	switch opKind {
